@@ -305,6 +305,7 @@ func checkC12SSA(r *Run) {
 	var supplied []suppliedVal
 	argSites := map[*ssa.Call]bool{}
 	hcOK, hcN, mapOK := true, 0, false
+	hcGate := true
 	var hcPos token.Pos
 	for _, p := range cm.paths {
 		ci, call := reflectCallEvent(p)
@@ -426,6 +427,9 @@ func checkC12SSA(r *Run) {
 					if !cm.helperContextOK(p, hv, node) {
 						hcOK = false
 					}
+					if !helperContextAskedFor(p) {
+						hcGate = false
+					}
 				}
 				if _, isMM := hv.(*ssa.MakeMap); isMM {
 					mapOK = true
@@ -435,6 +439,9 @@ func checkC12SSA(r *Run) {
 			if cr, _, isConv := reflectValueCall(v, "Convert"); isConv {
 				if va, isVO := reflectFunc(p.resolve(cr), "ValueOf"); isVO && len(va) == 1 && namedIs(stripIface(p.resolve(va[0])).Type(), modPath, "HelperContext") {
 					hcN++
+					if !helperContextAskedFor(p) {
+						hcGate = false
+					}
 					if !cm.helperContextOK(p, p.resolve(stripIface(p.resolve(va[0]))), node) {
 						hcOK = false
 					}
@@ -516,6 +523,14 @@ func checkC12SSA(r *Run) {
 		r.Ok("R5", name, "helper context {current scope, evaluator, node.Block}", w.Pos(hcPos), "the block of the call reaches the helper")
 	default:
 		r.Bad("R5", name, "helper context literal", w.Pos(hcPos), "the automatic helper context must carry the evaluator's current scope, the evaluator and the call's block")
+	}
+	if hcN > 0 {
+		if hcGate {
+			r.Ok("R5", name, "a helper context only for a parameter that asks for one", w.Pos(hcPos), "every path that supplies it has found the parameter type convertible to HelperContext or implementing hctx.HelperContext")
+		} else {
+			r.Bad("R5", name, "a helper context for a parameter that does not ask for one", w.Pos(hcPos),
+				"on some path the helper context is supplied although the omitted parameter's type was found neither convertible to HelperContext nor to implement hctx.HelperContext: an omitted interface{} or context parameter receives a value the template never passed instead of its zero value")
+		}
 	}
 	switch {
 	case autoN == 0:
@@ -1261,4 +1276,25 @@ func c12EvaluationsSSA(r *Run) {
 	} else {
 		r.Ok("R1", name, "one loop from position 0 per path", w.Pos(cm.fn.Pos()), fmt.Sprintf("%d loop(s) over the arguments start at position 0, none of which can follow another; any other loop continues where the previous stopped", len(zeroLoops)))
 	}
+}
+
+// helperContextAskedFor: the path has decided that the omitted parameter's type is convertible to the module's
+// HelperContext struct, or implements the hctx.HelperContext interface.
+func helperContextAskedFor(p *pwPath) bool {
+	for _, d := range p.decisions {
+		if !d.truth {
+			continue
+		}
+		if _, args, ok := typeInvoke(p, d.cond, "ConvertibleTo"); ok && len(args) == 1 {
+			if st := staticRType(p, args[0]); st != nil && namedIs(st, modPath, "HelperContext") {
+				return true
+			}
+		}
+		if _, args, ok := typeInvoke(p, d.cond, "Implements"); ok && len(args) == 1 {
+			if st := staticRType(p, args[0]); st != nil && namedIs(st, hctxPath, "HelperContext") {
+				return true
+			}
+		}
+	}
+	return false
 }
